@@ -304,4 +304,251 @@ Section Del.
       - intros o Ho. cbn [dels_of set_del f_del snd]. apply memN_In. rewrite Hm. apply memN_In in Ho. rewrite Ho. reflexivity.
     Qed.
   End Core.
+
+
+  (* ---------------------------------------------------------------- from the commit to the hypotheses of Core *)
+  Lemma replace_last_first : forall upd f, NoDup (ids_of upd) -> replace_last upd f = replace_first upd f.
+  Proof.
+    intros upd f Hnd. unfold replace_first. destruct (find_frag (f_id f) upd) as [u|] eqn:E.
+    - apply find_frag_some in E as [Hin Hid]. revert f Hid. induction upd as [|a r IH]; intros f Hid; [destruct Hin|].
+      cbn [ids_of map] in Hnd. inversion Hnd as [|? ? Hn Hr]; subst. unfold replace_last. cbn [fold_left].
+      destruct Hin as [Hin | Hin].
+      + subst a. rewrite Hid, N.eqb_refl. fold (replace_last r u). apply replace_last_notin. exact Hn.
+      + destruct (N.eqb (f_id a) (f_id f)) eqn:Ea.
+        * exfalso. apply N.eqb_eq in Ea. apply Hn. rewrite Ea, <- Hid. apply in_map. exact Hin.
+        * fold (replace_last r f). apply IH; assumption.
+    - apply replace_last_notin. apply find_frag_none. exact E.
+  Qed.
+  Lemma maxfid_sub : forall cur frs, wf_manifest cur -> (forall i, In i (ids_of frs) -> In i (ids_of (m_frags cur))) ->
+    omax (m_maxfid cur) (lmax (ids_of frs)) = m_maxfid cur.
+  Proof.
+    intros cur frs [_ [_ [_ Hm]]] Hsub. unfold wf_maxfid in Hm. destruct (m_maxfid cur) as [M|].
+    - apply lmax_bound. intros x Hx. apply Hsub in Hx. unfold ids_of in Hx. apply in_map_iff in Hx as [c [E Hc]]. subst. exact (Hm c Hc).
+    - destruct frs as [|k r]; [reflexivity|]. exfalso. specialize (Hsub (f_id k) (or_introl eq_refl)). rewrite Hm in Hsub. destruct Hsub.
+  Qed.
+  Lemma patch_dels_nil : forall upd, patch_dels [] upd = upd.
+  Proof. intros upd. unfold patch_dels. cbn [assocN]. apply map_id. Qed.
+
+  Lemma to_rw_NoDup : forall init, NoDup (init_ids init) -> NoDup (map (fun p : frag * bool => f_id (fst p)) (filter snd init)).
+  Proof.
+    induction init as [|a r IH]; intros H; cbn [filter]; [constructor|]. cbn [init_ids map] in H.
+    inversion H as [|? ? Hn Hr]; subst. destruct (snd a); [|exact (IH Hr)]. cbn [map]. constructor; [|exact (IH Hr)].
+    intro Q. apply Hn. apply in_map_iff in Q as [p [E Hp]]. apply filter_In in Hp as [Hp _]. unfold init_ids. apply in_map_iff. exists p. auto.
+  Qed.
+  Lemma to_rw_In : forall init f, In f (map (fun p : frag * bool => f_id (fst p)) (filter snd init)) <-> exists fi, In (fi, true) init /\ f_id fi = f.
+  Proof.
+    intros init f. rewrite in_map_iff. split.
+    - intros [[fi b] [E Hp]]. apply filter_In in Hp as [Hp Hb]. cbn [fst snd] in *. subst b. exists fi. auto.
+    - intros [fi [Hp E]]. exists (fi, true). split; [exact E | apply filter_In; auto].
+  Qed.
+
+  Lemma finish_facts : forall rb cur nd o' rows,
+    NoDup (init_ids (rb_init rb)) -> NoDup (ids_of (m_frags cur)) -> InvDU cur (rb_init rb) ->
+    (rb_aff rb = Some rows \/ forall fi, ~ In (fi, true) (rb_init rb)) ->
+    finish_delete_update frows rb (m_frags cur) nd = FOk o' ->
+    exists gone2 files,
+      o' = match rb_op rb with
+           | Delete upd dids => Delete (patch_dels files upd) (dids ++ gone2)
+           | Update dids upd nf fm md mw fp => Update (dids ++ gone2) (patch_dels files upd) nf fm md mw fp
+           | o => o end
+      /\ (forall fi, In (fi, true) (rb_init rb) -> exists fc e,
+            find_frag (f_id fi) (m_frags cur) = Some fc /\ f_del fc = Some e
+            /\ (forall o, In (f_id fi, o) rows -> ~ In o (snd e))
+            /\ (if N.eqb (cardN (unionN (snd e) (rows_of rows (f_id fi)))) (frag_rows fi)
+                then In (f_id fi) gone2 /\ assocN (f_id fi) files = None
+                else ~ In (f_id fi) gone2 /\ assocN (f_id fi) files = Some (nd, unionN (snd e) (rows_of rows (f_id fi)))))
+      /\ (forall f, (forall fi, In (fi, true) (rb_init rb) -> f_id fi <> f) -> ~ In f gone2 /\ assocN f files = None).
+  Proof.
+    intros rb cur nd o' rows Hnd Hndc Hinv Haff H. unfold finish_delete_update in H.
+    destruct (existsb snd (rb_init rb)) eqn:Em.
+    - destruct Haff as [Haff | Hnone].
+      2:{ apply existsb_exists in Em as [[fi b] [Hp Hb]]. cbn [snd] in Hb. subst b. exfalso. exact (Hnone fi Hp). }
+      rewrite Haff in H.
+      set (to_rw := map (fun p : frag * bool => f_id (fst p)) (filter snd (rb_init rb))) in *.
+      destruct (existing_dels (m_frags cur) to_rw) as [ex|] eqn:Ex; [|discriminate].
+      match type of H with context [existsb ?pp rows] => destruct (existsb pp rows) eqn:Ecf; [discriminate|] end.
+      destruct (rewrite_dvs frows (rb_init rb) ex rows to_rw nd) as [[gone2 files]|] eqn:Er; [|discriminate].
+      pose proof (existing_dels_spec _ _ _ Hndc Ex) as SE.
+      destruct (rewrite_dvs_spec frows _ _ _ _ _ _ _ (to_rw_NoDup _ Hnd) Er) as [SR1 SR2].
+      exists gone2, files. split; [destruct (rb_op rb); inversion H; subst; reflexivity | split].
+      + intros fi Hfi. destruct (Hinv fi true Hfi) as [fc [Hfc _]].
+        assert (Hin : In (f_id fi) to_rw) by (apply to_rw_In; exists fi; auto).
+        destruct (SE (f_id fi)) as [SE1 SE2]. rewrite (proj2 (memN_In _ _) Hin), Hfc in SE1.
+        specialize (SE2 (proj2 (memN_In _ _) Hin) fc Hfc). destruct (f_del fc) as [e|] eqn:Ee; [|contradiction]. cbn [option_map] in SE1.
+        exists fc, e. split; [exact Hfc | split; [exact Ee | split]].
+        * intros o Ho Hoe. apply (proj2 (not_true_iff_false _) Ecf).
+          apply existsb_exists. exists (f_id fi, o). split; [exact Ho|]. cbn [fst snd]. rewrite SE1. apply memN_In. exact Hoe.
+        * destruct (SR1 _ Hin) as [dv [Edv Hcase]]. unfold merged_dv in Edv. rewrite SE1 in Edv. inversion Edv; subst dv.
+          assert (Eg : init_get (f_id fi) (rb_init rb) = Some (fi, true)).
+          { unfold init_get. destruct (find _ (rb_init rb)) as [[g b]|] eqn:Ef.
+            - apply find_some in Ef as [Hg Eg]. cbn [fst] in Eg. apply N.eqb_eq in Eg.
+              destruct (init_unique _ g b fi true Hnd Hg Hfi Eg) as [A B]. subst. reflexivity.
+            - exfalso. pose proof (find_none _ _ Ef (fi, true) Hfi) as Q. cbn [fst] in Q. rewrite N.eqb_refl in Q. discriminate. }
+          rewrite Eg in Hcase. exact Hcase.
+      + intros f Hf. apply SR2. intro Hin. apply to_rw_In in Hin as [fi [Hp E]]. exact (Hf fi Hp E).
+    - exists [], []. split; [|split].
+      + inversion H; subst. destruct (rb_op rb); try reflexivity; rewrite patch_dels_nil, app_nil_r; reflexivity.
+      + intros fi Hfi. exfalso. assert (Q : existsb snd (rb_init rb) = true) by (apply existsb_exists; exists (fi, true); auto). congruence.
+      + intros f _. split; [intros [] | reflexivity].
+  Qed.
+
+
+  Notation Chain := (Chain frows).
+  Notation HistOk := (HistOk frows).
+
+  Lemma check_du_none : forall rb mw isu o rb', rb_aff rb = None -> check_delete_update rb mw isu o = (VOk, rb') -> gen_op o ->
+    rb' = rb /\ untouched_by (rb_mod rb) o.
+  Proof.
+    intros rb mw isu o rb' Ha H Hg. destruct o; cbn [check_delete_update gen_op] in *; try contradiction;
+      try (inversion H; fail); try (inversion H; subst; split; [reflexivity | exists []; split; [reflexivity | intros i _ []]]).
+    - unfold check_du_vs_du in H. rewrite Ha in H. destruct (negb (overlapN (ids_of upd ++ del_ids) (rb_mod rb))) eqn:Eo; inversion H; subst.
+      split; [reflexivity|]. exists (ids_of upd ++ del_ids). split; [reflexivity | apply overlap_untouched; apply negb_true_iff; exact Eo].
+    - unfold check_du_vs_du in H. rewrite Ha in H. destruct (negb (overlapN (ids_of upd ++ removed) (rb_mod rb))) eqn:Eo; inversion H; subst.
+      split; [reflexivity|]. exists (ids_of upd ++ removed). split; [reflexivity | apply overlap_untouched; apply negb_true_iff; exact Eo].
+    - destruct (overlapN (group_old_ids groups) (rb_mod rb)) eqn:Eo; inversion H; subst.
+      split; [reflexivity|]. exists (group_old_ids groups). split; [reflexivity | apply overlap_untouched; exact Eo].
+    - destruct (overlapN (map fst repl) (rb_mod rb)) eqn:Eo; inversion H; subst.
+      split; [reflexivity|]. exists (map fst repl). split; [reflexivity | apply overlap_untouched; exact Eo].
+  Qed.
+
+  Lemma check_all_none : forall m ops m', Chain m ops m' -> forall rb rb', is_du (rb_op rb) -> rb_aff rb = None ->
+    check_all rb ops = (VOk, rb') -> rb' = rb /\ forall o, In o ops -> untouched_by (rb_mod rb) o.
+  Proof.
+    intros m ops m' Hc. induction Hc as [m | m o m1 ops m' Hstep Hw1 Hc IH]; intros rb rb' Hdu Ha Hall.
+    - cbn [check_all] in Hall. inversion Hall. split; [reflexivity | intros o []].
+    - apply check_all_cons in Hall as [rb1 [Hc1 Hall]].
+      assert (Hcd : exists mw isu, check_txn rb o = check_delete_update rb mw isu o).
+      { unfold check_txn. destruct (rb_op rb); try contradiction; eauto. }
+      destruct Hcd as [mw [isu Hcd]]. rewrite Hcd in Hc1.
+      destruct Hstep as [Hb Hg Hgen | v Ev]; [|subst o; cbn [check_delete_update] in Hc1; inversion Hc1].
+      destruct (check_du_none rb mw isu o rb1 Ha Hc1 Hgen) as [E U]. subst rb1.
+      destruct (IH rb rb' Hdu Ha Hall) as [E' U']. split; [exact E'|]. intros o' [Ho' | Ho']; [subst; exact U | exact (U' o' Ho')].
+  Qed.
+
+  Lemma hist_wf : forall h v m, HistOk h -> nth_man h v = Some m -> wf_manifest m.
+  Proof.
+    intros h v m [Hw _] H. destruct (nth_man_some _ _ _ H) as [e [He [Em _]]]. subst m. apply Hw. eapply nth_error_In. exact He.
+  Qed.
+
+  Definition init0 (mr : manifest) (mods : list N) : list (frag * bool) := initial_fragments (m_frags mr) mods.
+  Lemma init0_In : forall mr mods fi b, In (fi, b) (init0 mr mods) <-> b = false /\ In fi (m_frags mr) /\ In (f_id fi) mods.
+  Proof.
+    intros mr mods fi b. unfold init0, initial_fragments. rewrite in_map_iff. split.
+    - intros [g [E Hg]]. inversion E; subst. apply filter_In in Hg as [Hg Hm]. apply memN_In in Hm. auto.
+    - intros [Eb [Hfi Hm]]. subst b. exists fi. split; [reflexivity | apply filter_In; split; [exact Hfi | apply memN_In; exact Hm]].
+  Qed.
+  Lemma init0_NoDup : forall mr mods, NoDup (ids_of (m_frags mr)) -> NoDup (init_ids (init0 mr mods)).
+  Proof.
+    intros mr mods H. unfold init_ids, init0, initial_fragments. rewrite map_map. cbn [fst].
+    apply (filter_ids_NoDup (fun f => memN (f_id f) mods)) in H. exact H.
+  Qed.
+  Lemma init0_inv : forall mr mods, wf_manifest mr -> InvDU mr (init0 mr mods).
+  Proof.
+    intros mr mods [Hnd [_ [_ _]]] fi b Hin. apply init0_In in Hin as [Eb [Hfi _]]. exists fi.
+    split; [apply find_frag_In; assumption | split; [apply Sim_refl | reflexivity]].
+  Qed.
+
+  (* the conclusion shared by delete and update: the rebased operation and the properties of the kept fragments *)
+  Definition du_result (cur : manifest) (rows : list addr) (upd : list frag) (gone : list N) (o' : op)
+             (mk_op : list frag -> list N -> op) : Prop :=
+    exists gone2 files,
+      let upd' := patch_dels files upd in
+      let gone' := gone ++ gone2 in
+      let kept := map (replace_first upd') (filter (fun f => negb (memN (f_id f) gone')) (m_frags cur)) in
+      o' = mk_op upd' gone'
+      /\ NoDup (ids_of upd')
+      /\ (forall f o, live_at kept f o = live_at (m_frags cur) f o && negb (mem_addr (f, o) rows))
+      /\ (forall f o x, In x (schema_ids (m_schema cur)) -> live_at kept f o = true -> cell_at kept f o x = cell_at (m_frags cur) f o x)
+      /\ NoDup (ids_of kept) /\ (forall i, In i (ids_of kept) -> In i (ids_of (m_frags cur)))
+      /\ (forall g, In g kept -> wf_frag g)
+      /\ (forall u c, In u upd' -> ~ In (f_id u) gone' -> find_frag (f_id u) (m_frags cur) = Some c -> incl (dels_of c) (dels_of u)).
+
+  Lemma du_core : forall h rv mr cur rows nd0 nd upd gone o rb' o' (mk_op : list frag -> list N -> op),
+    HistOk h -> nth_man h rv = Some mr -> latest h = Some cur ->
+    (forall a, In a rows -> live_at (m_frags mr) (fst a) (snd a) = true) ->
+    mk_deletions frows (m_frags mr) rows nd0 = (upd, gone) ->
+    ((o = Delete upd gone /\ mk_op = (fun u g => Delete u g))
+     \/ exists nf fm md mw fp, o = Update gone upd nf fm md mw fp /\ mk_op = (fun u g => Update g u nf fm md mw fp)) ->
+    check_all (try_new (m_frags mr) o (Some rows)) (ops_since h rv) = (VOk, rb') ->
+    finish_delete_update frows rb' (m_frags cur) nd = FOk o' ->
+    du_result cur rows upd gone o' mk_op.
+  Proof.
+    intros h rv mr cur rows nd0 nd upd gone o rb' o' mk_op Hh Hr Hl Hlive Hmk Ho Hall Hfin.
+    pose proof (hist_wf _ _ _ Hh Hr) as Hwr. pose proof (hist_wf _ _ _ Hh Hl) as Hwc.
+    pose proof (hist_chain frows fcontent _ _ _ _ Hh Hr Hl) as Hch.
+    set (mods := ids_of upd ++ gone).
+    assert (Hop : forall rb, rb_op rb = o -> is_du (rb_op rb)).
+    { intros rb E. rewrite E. destruct Ho as [[Ho _] | [nf [fm [md [mw [fp [Ho _]]]]]]]; subst o; exact I. }
+    assert (Hmkop : forall rb files gone2, rb_op rb = o ->
+              match rb_op rb with
+              | Delete u d => Delete (patch_dels files u) (d ++ gone2)
+              | Update d u nf fm md mw fp => Update (d ++ gone2) (patch_dels files u) nf fm md mw fp
+              | x => x end = mk_op (patch_dels files upd) (gone ++ gone2)).
+    { intros rb files gone2 E. rewrite E. destruct Ho as [[Ho Hm] | [nf [fm [md [mw [fp [Ho Hm]]]]]]]; subst o mk_op; reflexivity. }
+    pose proof Hwr as [Hndr _]. pose proof Hwc as [Hndc _].
+    (* the state after the checks, and the rebase list to use in Core *)
+    assert (Hstate : exists init, NoDup (init_ids init) /\ InvDU cur init /\ rb_op rb' = o
+               /\ (forall fi b, In (fi, b) init -> In fi (m_frags mr) /\ In (f_id fi) mods)
+               /\ (forall fi, In fi (m_frags mr) -> In (f_id fi) mods -> exists b, In (fi, b) init)
+               /\ exists gone2 files,
+                    o' = mk_op (patch_dels files upd) (gone ++ gone2)
+                    /\ (forall fi, In (fi, true) init -> exists fc e,
+                          find_frag (f_id fi) (m_frags cur) = Some fc /\ f_del fc = Some e
+                          /\ (forall o0, In (f_id fi, o0) rows -> ~ In o0 (snd e))
+                          /\ (if N.eqb (cardN (unionN (snd e) (rows_of rows (f_id fi)))) (frag_rows fi)
+                              then In (f_id fi) gone2 /\ assocN (f_id fi) files = None
+                              else ~ In (f_id fi) gone2 /\ assocN (f_id fi) files = Some (nd, unionN (snd e) (rows_of rows (f_id fi)))))
+                    /\ (forall f, (forall fi, In (fi, true) init -> f_id fi <> f) -> ~ In f gone2 /\ assocN f files = None)).
+    { destruct upd as [|u0 urest] eqn:Eupd.
+      - (* only whole-fragment deletions: try_new forgets the affected rows *)
+        set (rb0 := {| rb_op := o; rb_init := []; rb_mod := mods; rb_aff := None; rb_cfri := [] |}).
+        assert (Etn : try_new (m_frags mr) o (Some rows) = rb0).
+        { destruct Ho as [[Ho _] | [nf [fm [md [mw [fp [Ho _]]]]]]]; subst o; reflexivity. }
+        rewrite Etn in Hall. destruct (check_all_none _ _ _ Hch rb0 rb' (Hop rb0 eq_refl) eq_refl Hall) as [Erb Hunt]. subst rb'.
+        exists (init0 mr mods). split; [apply init0_NoDup; exact Hndr | split; [|split; [reflexivity | split; [|split]]]].
+        + intros fi b Hin. apply init0_In in Hin as [Eb [Hfi Hm]]. subst b.
+          destruct (chain_untouched frows fcontent _ _ _ Hch Hwr mods Hunt fi fi Hm (find_frag_In _ fi Hndr Hfi) (Sim_refl frows fcontent _ fi))
+            as [f2 [F1 [F2 [F3 _]]]].
+          exists f2. auto.
+        + intros fi b Hin. apply init0_In in Hin as [_ Q]. exact Q.
+        + intros fi Hfi Hm. exists false. apply init0_In. auto.
+        + destruct (finish_facts rb0 cur nd o' rows) as [gone2 [files [Eo [F1 F2]]]];
+            [constructor | exact Hndc | intros fi b [] | right; intros fi [] | exact Hfin|].
+          exists gone2, files. split; [rewrite Eo; apply (Hmkop rb0); reflexivity | split].
+          * intros fi Hin. apply init0_In in Hin as [Q _]. discriminate.
+          * intros f _. apply F2. intros fi [].
+      - rewrite <- Eupd in *.
+        set (rb0 := {| rb_op := o; rb_init := init0 mr mods; rb_mod := mods; rb_aff := Some rows; rb_cfri := [] |}).
+        assert (Etn : try_new (m_frags mr) o (Some rows) = rb0).
+        { destruct Ho as [[Ho _] | [nf [fm [md [mw [fp [Ho _]]]]]]]; subst o; unfold rb0, mods, init0; rewrite Eupd; reflexivity. }
+        rewrite Etn in Hall.
+        assert (Hmod0 : forall i, In i (init_ids (rb_init rb0)) -> In i (rb_mod rb0)).
+        { intros i Hi. unfold init_ids in Hi. apply in_map_iff in Hi as [[g b] [E Hg]]. apply init0_In in Hg as [_ [_ Q]]. cbn [fst] in E. subst i. exact Q. }
+        destruct (chain_du frows fcontent _ _ _ Hch rb0 rb' Hwr (Hop rb0 eq_refl) (init0_NoDup mr mods Hndr) (init0_inv mr mods Hwr) Hmod0 Hall)
+          as [Hinv [[C1 [C2 [C3 [C4 C5]]]] _]].
+        assert (Hndi : NoDup (init_ids (rb_init rb'))) by (rewrite C4; apply init0_NoDup; exact Hndr).
+        exists (rb_init rb'). split; [exact Hndi | split; [exact Hinv | split; [exact C1 | split; [|split]]]].
+        + intros fi b Hin. destruct (C5 fi b Hin) as [b0 [Hb0 _]]. apply init0_In in Hb0 as [_ Q]. exact Q.
+        + intros fi Hfi Hm.
+          assert (Hi : In (f_id fi) (init_ids (rb_init rb'))).
+          { rewrite C4. unfold init_ids. apply (in_map (fun q => f_id (fst q)) _ (fi, false)). apply init0_In. auto. }
+          unfold init_ids in Hi. apply in_map_iff in Hi as [[g b] [E Hg]]. cbn [fst] in E.
+          destruct (C5 g b Hg) as [b0 [Hb0 _]]. apply init0_In in Hb0 as [_ [Hgm _]].
+          assert (g = fi). { pose proof (find_frag_In _ g Hndr Hgm) as Q1. pose proof (find_frag_In _ fi Hndr Hfi) as Q2. rewrite E in Q1. congruence. }
+          subst g. exists b. exact Hg.
+        + destruct (finish_facts rb' cur nd o' rows Hndi Hndc Hinv (or_introl C3) Hfin) as [gone2 [files [Eo [F1 F2]]]].
+          exists gone2, files. split; [rewrite Eo; apply (Hmkop rb'); exact C1 | split; [exact F1 | exact F2]]. }
+    destruct Hstate as [init [Hndi [Hinv [Eop [Hin1 [Hin2 [gone2 [files [Eo [F1 F2]]]]]]]]]].
+    exists gone2, files. cbv zeta.
+    assert (Hi1 : forall fi, In fi (m_frags mr) -> In (f_id fi) (ids_of upd ++ gone) -> exists b, In (fi, b) init) by exact Hin2.
+    assert (Hi2 : forall fi b, In (fi, b) init -> In fi (m_frags mr)) by (intros fi b Q; exact (proj1 (Hin1 fi b Q))).
+    assert (Hi3 : forall fi b, In (fi, b) init -> In (f_id fi) (ids_of upd ++ gone)) by (intros fi b Q; exact (proj2 (Hin1 fi b Q))).
+    split; [exact Eo | split; [rewrite patch_dels_ids; exact (upd_NoDup mr rows nd0 upd gone Hwr Hmk) | split; [|split; [|split; [|split; [|split]]]]]].
+    - exact (kept_live mr cur rows nd0 nd upd gone init gone2 files Hwr Hwc Hlive Hmk Hi1 Hi2 Hi3 Hndi Hinv F1 F2).
+    - exact (kept_cell mr cur rows nd0 nd upd gone init gone2 files Hwr Hwc Hlive Hmk Hi1 Hi2 Hi3 Hndi Hinv F1 F2).
+    - exact (kept_NoDup cur upd gone gone2 files Hwc).
+    - exact (kept_ids cur upd gone gone2 files).
+    - exact (kept_wf mr cur rows nd0 nd upd gone init gone2 files Hwr Hwc Hlive Hmk Hi1 Hi2 Hi3 Hndi Hinv F1 F2).
+    - exact (kept_goodop mr cur rows nd0 nd upd gone init gone2 files Hwr Hwc Hlive Hmk Hi1 Hi2 Hi3 Hndi Hinv F1 F2).
+  Qed.
 End Del.
